@@ -95,6 +95,20 @@ def rule_view_extent(fb, res, cls, key, ptrf, lenf, hsize, bound_minus=None, rea
                 return None
             if lv.get("k") == "bin" and lv.get("op") in ("/", ">>"):
                 d = path_const(lv["r"])
+                if d is None and lv["op"] == "/":
+                    # an element width looked up by a helper (`bytes / sampleSize(type)`): every width it can answer is a case of its own
+                    dv = strip_all_casts(facts.expand(lenf, lv["r"]))
+                    gdv = fb.resolve_call(dv) if dv.get("k") == "call" else None
+                    widths = sorted({const_value(r0.get("e")) for r0 in gdv.returns()}) if gdv is not None and gdv.body is not None and gdv.returns() and \
+                        all(const_value(r0.get("e")) is not None for r0 in gdv.returns()) else None
+                    if widths is not None:
+                        if 0 in widths:
+                            res.bad("C03-R2b", key + ":extent:divisor", lv.get("loc") or lenf.loc,
+                                    "%s() divides the payload's size by %s(..), which answers 0 for some values of the field it is given: for such a payload "
+                                    "(accepted or not, the getter is public and the validator uses the same helper) the division traps" %
+                                    (lenf.name.split("::")[-1], gdv.name.split("::")[-1]))
+                            continue
+                        d = min(widths)  # the smallest width gives the largest count
                 if d is None or d < 0 or (lv["op"] == "/" and d == 0) or d > 63:
                     raise Broken("%s: divisor of the element count is not a constant" % lenf.name)
                 w, num = (d if lv["op"] == "/" else (1 << d)), lv["l"]
@@ -716,6 +730,15 @@ def run(ctx):
                     if ok:
                         dl, dp = walk_depth(fb, lenf), walk_depth(fb, ptrf)
                         if dl is None or dp is None or not dl:
+                            own = [fl for fl in fb.record(q).get("fields", []) if not fb.is_payload_buffer({"k": "member", "field": fl["qname"], "dk": "field"})]
+                            if own:
+                                # the walk depends on state the class keeps beside the payload bytes (a cached position): what the reader
+                                # answers is then a function of earlier calls, not of the bytes — after the bytes change it points elsewhere
+                                res.bad("C03-R2b", key + ":position-from-state", own[0].get("loc") or lenf.loc,
+                                        "%s()/%s(): the position of the field is taken from the data member `%s` kept beside the payload bytes on some paths: "
+                                        "once the payload is rebuilt (setData) or edited the remembered position belongs to the old content — the view and its "
+                                        "length describe other bytes than the field's" % (pg, lg, own[0]["name"]))
+                                continue
                             raise Broken("%s/%s: walker steps before the return differ between paths" % (pg, lg))
                         res.check(dl == dp, "C03-R2b", key + ":extent", ptrf.loc, "pointer and length come from the same walker position (%d steps each)" % dl,
                                   "%s() returns the field after %d walker steps, %s() the length of the field after %d: pointer and length belong "
